@@ -326,6 +326,36 @@ def fn_indexed(spec, rec):
                         raise
                     if not (np.isclose(got, exp, rtol=1e-9, atol=0, equal_nan=True)):
                         raise Mismatch("indexed/compute_statistic-subset/" + stat, {"got": float(got), "expected": float(exp), "indices": list(ind)})
+                # along axes of the reduced dataset, with and without the selection (a selection that misses the slice gives all-NaN)
+                axes = [k for k in range(len(rshape))] + ([tuple(range(len(rshape)))] if len(rshape) >= 2 else [])
+                for axis in axes:
+                    for use_sub in ((False, True) if pm is not None else (False,)):
+                        keep = np.isfinite(vals) & (pm if use_sub else True)
+                        sel = np.where(keep, vals, np.nan)
+                        with np.errstate(all="ignore"):
+                            import warnings
+                            with warnings.catch_warnings():
+                                warnings.simplefilter("ignore")
+                                exp = np.asarray(fn(sel, axis=axis), dtype=float)
+                        exp = np.where(keep.sum(axis=axis) == 0, np.nan, exp)
+                        try:
+                            got = np.asarray(idata.compute_statistic(stat, idata.main_components[ci], axis=axis,
+                                                                     subset_state=gen.build_state(spec["tree"], parent) if use_sub else None), dtype=float)
+                        except Exception as e:  # noqa
+                            if blame(e)[0] == "glue":
+                                raise Mismatch("indexed/compute_statistic-axis-raises/%s" % type(e).__name__, repr(e))
+                            raise
+                        tag = "subset" if use_sub else "all"
+                        if got.shape != exp.shape:
+                            if use_sub and spec["tree"]["t"] == "slice":
+                                rec.label("indexed-slice-subset-compact-shape-not-compared")      # undocumented compact path, see C10
+                                continue
+                            raise Mismatch("indexed/compute_statistic-axis/%s/shape%s" % (tag, "/selection-misses-slice" if use_sub and not keep.any() else ""),
+                                           {"got": list(got.shape), "expected": list(exp.shape), "axis": axis, "indices": list(ind), "round": rnd})
+                        if not np.allclose(got, exp, rtol=1e-9, atol=0, equal_nan=True):
+                            raise Mismatch("indexed/compute_statistic-axis/%s/%s" % (tag, stat), {"got": got.tolist(), "expected": exp.tolist(), "axis": axis, "indices": list(ind)})
+                        if use_sub and not keep.any():
+                            rec.label("indexed-selection-misses-slice")
             # histogram of the first numeric component over [-5, 5] with 5 bins
             fin = vals[np.isfinite(vals)]
             exp_h = np.histogram(fin, bins=5, range=(-5.1, 4.9))[0]
